@@ -36,7 +36,20 @@ func NumberMatches(text string, want Value) bool {
 		want = NumV(float64(want.I))
 	}
 	if math.IsNaN(want.N) || math.IsInf(want.N, 0) {
-		return text != "" // spelling of non-finite values is not asserted
+		// the spelling of non-finite values is not asserted, but the text must
+		// not denote a finite number, and a recognisable non-finite spelling
+		// must be of the right class
+		if text == "" {
+			return false
+		}
+		got, err := strconv.ParseFloat(text, 64)
+		if err != nil {
+			return true
+		}
+		if math.IsNaN(want.N) {
+			return math.IsNaN(got)
+		}
+		return math.IsInf(got, 0) && math.Signbit(got) == math.Signbit(want.N)
 	}
 	got, err := strconv.ParseFloat(text, 64)
 	if err != nil {
@@ -73,12 +86,13 @@ func normContainer(line string) []string {
 }
 
 func tokenMatches(want, got string) bool {
-	if strings.HasPrefix(want, "#") {
-		body := want[1:]
-		if i, err := strconv.ParseInt(body, 10, 64); err == nil && !strings.ContainsAny(body, "abcdefx") {
+	if strings.HasPrefix(want, "#i") {
+		if i, err := strconv.ParseInt(want[2:], 10, 64); err == nil {
 			return NumberMatches(got, IntV(i))
 		}
-		if b, err := strconv.ParseUint(body, 16, 64); err == nil {
+	}
+	if strings.HasPrefix(want, "#f") {
+		if b, err := strconv.ParseUint(want[2:], 16, 64); err == nil {
 			return NumberMatches(got, NumV(math.Float64frombits(b)))
 		}
 	}
